@@ -63,10 +63,22 @@ def _parallel(cmd, lines, env, jobs):
     return out
 
 
+def _dearlynum(line):
+    """Derivative(e, compute_early=True).at(x) for an expression with at most one variable is, in the model, the early
+    partial in that variable (or in the placeholder) at the point {variable: x}"""
+    import sx
+    ts = sx.tokenize(line)
+    e, _ = sx.parse_expr(ts, 2)
+    ids = sx.var_ids(e)
+    v = ids[0] if ids else 1
+    return 'PEARLY %d [%d=%s] %s' % (v, v, ts[1], sx.to_sx(e))
+
+
 def run_model(lines, jobs=None):
     # 'NF ' asks the implementation runner to spell integer parameters as integral floats; the model
     # has one spelling
     lines = [l[4:] if l.startswith('MSG ') else l for l in lines]
+    lines = [_dearlynum(l) if l.startswith('DEARLYNUM ') else l for l in lines]
     lines = [l[3:] if l.startswith('NF ') else l for l in lines]
     return _parallel(['/bin/sh', '-c', 'ulimit -s unlimited 2>/dev/null; exec "%s"' % DRIVER],
                      lines, None, jobs or NPROC)
